@@ -56,6 +56,7 @@ pub fn to_json(n: &Node) -> Value {
         CondExpr(c, y, no) => json!(["CondExpr", to_json(c), to_json(y), to_json(no)]),
         GroupExists(g) => json!(["GroupExists", g]),
         Flags(on, off, c) => json!(["Flags", on, off, to_json(c)]),
+        SetFlags(on, off) => json!(["SetFlags", on, off]),
     }
 }
 
@@ -102,6 +103,7 @@ pub fn from_json(v: &Value) -> Option<Node> {
         "CondGroup" => CondGroup(num(1)?, bx(2)?, bx(3)?),
         "CondExpr" => CondExpr(bx(1)?, bx(2)?, bx(3)?),
         "GroupExists" => GroupExists(num(1)?),
+        "SetFlags" => SetFlags(a.get(1)?.as_str()?.to_string(), a.get(2)?.as_str()?.to_string()),
         "Flags" => Flags(a.get(1)?.as_str()?.to_string(), a.get(2)?.as_str()?.to_string(), bx(3)?),
         _ => return None,
     })
